@@ -61,6 +61,8 @@ def cases(ctx):
 def big_cases(ctx):
     """thorough only: messages whose length needs the 5-byte (>= 65536 is covered above) and the 9-byte compact-size form (>= 2^32 bytes,
     ~13 GiB peak in the driver), generated inside the driver"""
+    if ctx.shard == 3:
+        yield {"k": "bsm_big", "x": "%064x" % ctx.rnd.randrange(1, ec.N), "len": (1 << 25) + 1}
     if ctx.tier == "thorough" and ctx.shard == 1:
         yield {"k": "bsm_big", "x": "%064x" % ctx.rnd.randrange(1, ec.N), "len": (1 << 32) + 5}
     if ctx.tier == "thorough" and ctx.shard == 2:
@@ -72,7 +74,7 @@ def judge_big(ctx, case):
 
     n = case["len"]
     x = int(case["x"], 16)
-    ctx.hit("message>=2^32" if n >= 1 << 32 else "message>=2^24")
+    ctx.hit("message>=2^32" if n >= 1 << 32 else "message>32MiB" if n > 1 << 25 else "message>=2^24")
     ctx.nontrivial()
     h = hashlib.sha256()
     h.update(wire.cs_enc(len(MAGIC)) + MAGIC + wire.cs_enc(n))
@@ -91,6 +93,12 @@ def judge_big(ctx, case):
     if "ok" not in r:
         ctx.viol("BSM signing of a very long message failed", {"len": n, "resp": str(r)[:200]})
         return
+    # ... and verified, against the signer's address
+    pubb = ec.ser(ec.mul_g(x), True)
+    v = ctx.call({"op": "bsm_verify", "msg_gen": {"len": n}, "compact": r["ok"]["compact"], "addr_hash": hashes.hash160(pubb).hex(), "prefix": 0, "guard": 6 * n + (256 << 20)}, watchdog=1800)
+    ctx.ev()
+    if "ok" in v and "bsm_verify" in v["ok"] and not all_true(v["ok"]):
+        ctx.viol("BSM verification of a genuine signature over a very long message fails (%s)" % ("length >= 2^32" if n >= 1 << 32 else "length above 32 MiB" if n > 1 << 25 else "length >= 2^24"), {"len": n, "resp": str(v["ok"])[:300]})
     e = ec.sign_det(x, d)
     if (int(r["ok"]["r"], 16), int(r["ok"]["s"], 16)) != (e[0], e[1]):
         ctx.viol("BSM signature over a very long message is not the reference signature over sha256d(magic-prefixed, length-prefixed message) (%s)" % ("length >= 2^32" if n >= 1 << 32 else "length >= 2^24"), {"len": n})
